@@ -978,6 +978,17 @@ def gen_oracle(seed):
             else: p.point()
         elif r < .35:
             a = rnd.choice(p.P); n = p.newp(); p.emit("pt.smul %s %s %s" % (n, rnd.choice(W), a))
+        elif r < .45:
+            # the SAME point written in two ways (x and 1 * x, x + 0 * z, x / 2 + x / 2): a function sampled at both has one
+            # value there, and one gradient if it is differentiable (the lookup compares decompositions, not objects)
+            x = rnd.choice(p.P); z = rnd.choice(p.P); y = p.newp()
+            p.emit(rnd.choice(["pt.smul %s 1 %s" % (y, x), "pt.lin %s 1 %s 0 %s" % (y, x, z), "pt.lin %s 1/2 %s 1/2 %s" % (y, x, x), "pt.lin %s 2 %s -1 %s" % (y, x, x)]))
+            f = rnd.choice(p.F)
+            for pt_ in rnd.sample([x, y], 2):
+                k_ = rnd.random()
+                if k_ < .5: g_, v_ = p.newp(), p.newe(); p.emit("fn.oracle %s %s %s %s" % (f, pt_, g_, v_))
+                elif k_ < .75: g_ = p.newp(); p.emit("fn.gradient %s %s %s" % (f, pt_, g_))
+                else: v_ = p.newe(); p.emit("fn.value %s %s %s" % (f, pt_, v_))
         else: p.sample_ops(rnd.choice(p.F), 1)
         if rnd.random() < .3:
             f = rnd.choice(p.F); p.emit("dump.fn %s" % f); p.emit("check.afn %s" % f)
